@@ -24,10 +24,11 @@ VALUES = {
     'none': lambda: None,
     'strs': lambda: ['p', 'qq'],
     'nested': lambda: [[1, 2], 'ab'],
+    'np2d': lambda: np.array([[1, 2], [3, 4], [5, 6]]),          # a 2-D array: its values are its rows
 }
 EXPANDED = {
     'int': [7], 'str': ['xy'], 'empty': [], 'one': [1], 'two': [1, 2], 'tuple_rep': [1, 1], 'range2': [0, 1],
-    'nparr': [1, 2], 'none': [None], 'strs': ['p', 'qq'], 'nested': [[1, 2], 'ab'],
+    'nparr': [1, 2], 'none': [None], 'strs': ['p', 'qq'], 'nested': [[1, 2], 'ab'], 'np2d': [[1, 2], [3, 4], [5, 6]],
 }
 NAMES = ['a', 'b', 'c']
 STARTS = {
@@ -68,6 +69,8 @@ def product(decl):
 def _py(v):
     if isinstance(v, np.generic):
         return v.item()
+    if isinstance(v, np.ndarray):
+        return v.tolist()
     if isinstance(v, (list, tuple)):
         return [_py(x) for x in v]
     return v
@@ -191,9 +194,44 @@ class Harness:
         return w.last
 
 
+def churn_case(case):
+    """Many short-lived parameter lists with long value collections of equal name and length but different contents
+    (object addresses get reused): every build is the product of its own declaration."""
+    n, rounds = case['items'], case['rounds']
+    builds = 0
+    for r in range(rounds):
+        vals = [r * 1000 + i for i in range(n)]
+        if case['kind'] == 'tuple':
+            vals = tuple(vals)
+        pl = ParameterList({'a': vals, 'b': ['u', 'v']}) if r % 2 else ParameterList()
+        if not r % 2:
+            pl.add_parameter('a', vals)
+            pl.add_parameter('b', ['u', 'v'])
+        got = pl.build()
+        exp = [{'a': v, 'b': b} for v in vals for b in ('u', 'v')]
+        builds += 1
+        if got != exp:
+            bad = next(i for i, (g, e) in enumerate(zip(got, exp)) if g != e) if len(got) == len(exp) else None
+            raise Violation(f'round {r}: build of a fresh list with {n} values for "a" is not its own product',
+                            expected=exp[bad] if bad is not None else len(exp),
+                            observed=got[bad] if bad is not None else len(got))
+        del pl, vals, got
+    return builds
+
+
 def run(ctx):
+    for kind in ('list', 'tuple'):
+        for items in (3, 48, 64, 200):
+            case = {'leg': 'churn', 'kind': kind, 'items': items, 'rounds': 120}
+            ctx.traces += 1
+            try:
+                ctx.transitions += hbfs._guard(churn_case, case)
+            except Violation as v:
+                ctx.report(case, v)
+                return
+    ctx.leg('churn', note='8 sequences of 120 short-lived lists with 3 / 48 / 64 / 200 values')
     if ctx.tier == 'quick':
-        vals = ['int', 'str', 'empty', 'one', 'two', 'tuple_rep', 'range2', 'nparr', 'none']
+        vals = ['int', 'str', 'empty', 'one', 'two', 'tuple_rep', 'range2', 'nparr', 'none', 'np2d']
         plan = [('empty', vals, 3), ('dict_ab', vals[:5], 2), ('empty_dict', vals[:3], 1), ('dict_ba', vals[3:8], 2)]
     else:
         vals = list(VALUES)
@@ -209,4 +247,7 @@ def run(ctx):
 
 
 def replay(case):
+    if case['leg'] == 'churn':
+        hbfs._guard(churn_case, case)
+        return
     hbfs.replay_case(Harness(case['config']['start'], case['config']['values']), case)
